@@ -3390,6 +3390,13 @@ impl PeerConnection {
         label: &str,
         config: Option<crate::transports::sctp::DataChannelConfig>,
     ) -> RtcResult<Arc<crate::transports::sctp::DataChannel>> {
+        // A closed connection has already swept its channels: one registered now would
+        // never be opened nor closed and its recv() would wait forever.
+        if *self.inner.peer_state.borrow() == PeerConnectionState::Closed {
+            return Err(RtcError::InvalidState(
+                "create_data_channel on a closed PeerConnection".into(),
+            ));
+        }
         // Ensure we have an application transceiver for negotiation
         let has_app_transceiver = {
             let transceivers = self.inner.transceivers.lock();
